@@ -1028,18 +1028,53 @@ def gen_case(spec):
         keysets[h] = _emb_model(kd)
     n_ops = g.randint(10, 50)
     combined = []
+    contested = {}
     guard = 0
     motifs = []
     if g.random() < 0.10:
         motifs.append("parent-registry-first")
     if g.random() < 0.30 and len(cat["dirs"]) >= 2:
         motifs.append("temporary-members")
+    clash = None
+    for da in cat["dirs"]:
+        for db in cat["dirs"]:
+            if da is not db:
+                ma, mb = dir_model(da), dir_model(db)
+                both = [k_ for k_ in ma if k_ in mb and ma[k_] != mb[k_]]
+                if both and clash is None:
+                    clash = (da, db, both)
+    if clash and g.random() < 0.5:
+        motifs.append("nested-overlap")
     while len(ops) < n_ops and guard < 500:
         guard += 1
         live = [h for h in handles if handles[h] is not None]
         x = g.random()
         if motifs and g.random() < 0.15:
             m_ = motifs.pop()
+            if m_ == "nested-overlap":
+                # outer holds directory A, inner holds directory B, both define the same id:
+                # outer << inner must keep A's plasmid
+                da, db, both = clash
+                ha, hb = "r%d" % len(handles), "r%d" % (len(handles) + 1)
+                co, ci = "c%d" % len(combined), "c%d" % (len(combined) + 1)
+                for h_, d_ in ((ha, da), (hb, db)):
+                    add({"op": "open_dir", "r": h_, "dir": d_["id"]})
+                    handles[h_] = ("dir", d_)
+                    keysets[h_] = dir_model(d_)
+                for c_ in (co, ci):
+                    add({"op": "combined", "r": c_})
+                    handles[c_] = ("combined", [])
+                    keysets[c_] = {}
+                    combined.append(c_)
+                for tgt, mem in ((co, ha), (ci, hb), (co, ci)):
+                    add({"op": "add", "r": tgt, "member": mem, "via": g.choice(["lshift", "add_registry"]), "overlap": bool(set(keysets[mem]) & set(keysets[tgt])), "repeat": False})
+                    handles[tgt][1].append(mem)
+                    for kk, src in keysets[mem].items():
+                        keysets[tgt].setdefault(kk, src)
+                for k_ in both[:2]:
+                    add({"op": g.choice(["getitem", "get"]), "r": co, "key": k_, "key_class": "contested"})
+                add({"op": "len", "r": co})
+                continue
             if m_ == "parent-registry-first":
                 # the registry class PTKRegistry derives from YTKRegistry: ask the parent first
                 hy, hp = "r%d" % len(handles), "r%d" % (len(handles) + 1)
@@ -1095,7 +1130,12 @@ def gen_case(spec):
             op = add({"op": "add", "r": c, "member": m, "via": g.choice(["lshift", "add_registry"]), "overlap": overlap, "repeat": repeat})
             handles[c][1].append(m)
             for kk, src in mk.items():
+                if kk in keysets[c] and keysets[c][kk] != src:
+                    contested.setdefault(c, set()).add(kk)   # two members hold different plasmids under this id
                 keysets[c].setdefault(kk, src)
+            for cc in combined:
+                if m in contested and cc == c:
+                    contested.setdefault(c, set()).update(contested[m])
             if faulty and fl.random() < 0.35:
                 _plan_fault(fl, faults, op, handles[m], len(mk))
                 if fl.random() < 0.5:
@@ -1131,6 +1171,8 @@ def gen_case(spec):
                 d = handles[h][1] if kind == "dir" else None
                 others = [kk for h2 in live if h2 != h for kk in list(keysets[h2])[:3] if kk not in keysets[h]]
                 key, kc = g.choice(_keys_for(g, d, keysets[h], others[:3]))
+                if contested.get(h) and g.random() < 0.5:
+                    key, kc = g.choice(sorted(contested[h])), "contested"
                 if kc in ("path-like", "path-backref", "path-into-subdir") and spec.get("no_path_keys"):
                     continue
                 op = add({"op": g.choice(["getitem", "getitem", "contains", "get"]), "r": h, "key": key, "key_class": kc})
@@ -1195,7 +1237,7 @@ def catalogue_summary(case):
     return {"dirs": [{"id": d["id"], "base": d["base"], "extensions": d["extensions"], "entries": [e["name"] + ("/" if e["kind"] == "dir" else "") for e in d["entries"]]} for d in case["catalogue"]["dirs"]], "store": case.get("store")}
 
 
-EXPECTED_PROBES = {"C20": ["add-retried-after-fault", "temporary-member-released-after-add", "abandoned-iteration", "same-plasmid-under-two-stems", "file-with-extra-label", "add-overlapping-member", "add-repeated-member", "second-equal-embedded-instance", "key:present", "key:absent-random", "key:unsupported-ext", "key:subdir", "key:non-string", "key:key-with-extension", "op-after-fault", "op-on-registry-that-saw-a-fault"]}
+EXPECTED_PROBES = {"C20": ["key:contested", "add-retried-after-fault", "temporary-member-released-after-add", "abandoned-iteration", "same-plasmid-under-two-stems", "file-with-extra-label", "add-overlapping-member", "add-repeated-member", "second-equal-embedded-instance", "key:present", "key:absent-random", "key:unsupported-ext", "key:subdir", "key:non-string", "key:key-with-extension", "op-after-fault", "op-on-registry-that-saw-a-fault"]}
 
 
 def coverage_extra(prop, stats, probes):
